@@ -12,7 +12,7 @@ def main():
     prop, tier, seed, shard, nshards, out = sys.argv[1:7]
     only_case = sys.argv[7] if len(sys.argv) > 7 else None
     seed, shard, nshards = int(seed), int(shard), int(nshards)
-    from . import env, case, clock
+    from . import env, case, clock, drive
 
     env.bootstrap()
     mon = importlib.import_module("vf.monitors." + prop.lower())
@@ -34,6 +34,7 @@ def main():
             acc["cases_skipped_time"] += len(todo) - n
             break
         cs = case.Case(prop, seed_str, tier, acc)
+        drive.SPELL["rng"] = env.rng_for(seed_str, "spelling") if getattr(mon, "SPELLING", True) else None
         try:
             mon.run_case(cs)
             acc["cases"] += 1
@@ -55,8 +56,6 @@ def main():
             cs.cleanup()
     if hasattr(mon, "finish"):
         mon.finish(acc)
-    from . import drive
-
     acc["counters"]["divergence_audit:readonly_commands_seen"] = drive.AUDIT["n"]
     acc["counters"]["divergence_audit:repeated_in_subprocess"] = drive.AUDIT["done"]
     acc["classes"] = sorted(acc["classes"])
